@@ -62,13 +62,13 @@ class Oracle(object):
         return (self.popen, self.conn)
 
 
-# shared = (lock, handle, conn, launches, popens, attempts, connects, failed, epoch, inflight)
-# conn = None | (closed, gotclose, pending)
-LOCK, HANDLE, CONN, LAUNCHES, POPENS, ATTEMPTS, CONNECTS, FAILED, EPOCH, INFLIGHT = range(10)
+# shared = (lock, handle, conn, launches, popens, attempts, connects, failed, epoch, inflight, naddr, srv)
+# conn = None | (closed, gotclose, pending, addr); srv = addresses given to launched servers, newest first
+LOCK, HANDLE, CONN, LAUNCHES, POPENS, ATTEMPTS, CONNECTS, FAILED, EPOCH, INFLIGHT, NADDR, SRV = range(12)
 
 
 def init_state(scripts):
-    sh = (None, None, None, 0, 0, 0, 0, 0, 0, 0)
+    sh = (None, None, None, 0, 0, 0, 0, 0, 0, 0, 0, ())
     clients = tuple((tuple(s), START_PC[s[0]] if s else ('PAcq',), (), 0) for s in scripts)
     return (sh, clients, ())
 
@@ -84,19 +84,20 @@ def finished(st, h):
     return h < len(st) and st[h][0] == 'SDone'
 
 
-def run_popen(o, sh, ok_pc, exc):
+def run_popen(o, a, sh, ok_pc, exc):
     """common body of the Popen step; returns (sh', outcome)"""
     k = sh[POPENS]
     if o.p(k):
-        return _set(sh, popens=k + 1, launches=sh[LAUNCHES] + 1, inflight=sh[INFLIGHT] + 1), ok_pc
+        return _set(sh, popens=k + 1, launches=sh[LAUNCHES] + 1, inflight=sh[INFLIGHT] + 1,
+                    srv=(a,) + sh[SRV]), ok_pc
     return _set(sh, popens=k + 1), exc('LaunchErr')
 
 
-def run_connect(o, sh, ok, retry, exc):
+def run_connect(o, a, sh, ok, retry, exc):
     k = sh[ATTEMPTS]
     r = o.c(k)
     if r == COK:
-        return _set(sh, attempts=k + 1, conn=(False, False, 0), connects=sh[CONNECTS] + 1,
+        return _set(sh, attempts=k + 1, conn=(False, False, 0, a), connects=sh[CONNECTS] + 1,
                     inflight=sh[INFLIGHT] - 1 if sh[INFLIGHT] else 0), ok
     if r == CRETRY:
         return _set(sh, attempts=k + 1), retry
@@ -168,13 +169,13 @@ def cstep(cfg, o, i, sh, st, p):
         return (sh, st, G('RHas')) if finished(st, p[1]) else None
     if k == 'RHas':
         return sh, st, (G('RRel') if conn is not None else G('RCallRun'))
-    if k == 'RCallRun':
-        return sh, st, G('RPopen')
+    if k == 'RCallRun':       # addr = arbitrary_address(...): a new address on every _run
+        return _set(sh, naddr=sh[NADDR] + 1), st, G('RPopen', sh[NADDR])
     if k == 'RPopen':
-        sh2, out = run_popen(o, sh, G('RConnect'), lambda e: G('RRelExc', e))
+        sh2, out = run_popen(o, p[1], sh, G('RConnect', p[1]), lambda e: G('RRelExc', e))
         return sh2, st, out
     if k == 'RConnect':
-        sh2, out = run_connect(o, sh, G('RRel'), G('RConnect'), lambda e: G('RRelExc', e))
+        sh2, out = run_connect(o, p[1], sh, G('RRel'), G('RConnect', p[1]), lambda e: G('RRelExc', e))
         return sh2, st, out
     if k == 'RRel':
         return _set(sh, lock=None), st, G('CSend')
@@ -183,18 +184,18 @@ def cstep(cfg, o, i, sh, st, p):
     if k == 'CSend':
         if conn is None:
             return sh, st, ('raise', 'AttrErr')
-        closed, got, pend = conn
+        closed, got, pend, ad = conn
         if closed:
             return sh, st, ('raise', 'OSErr')
-        return _set(sh, conn=(closed, got, pend if got else pend + 1)), st, G('CRecv')
+        return _set(sh, conn=(closed, got, pend if got else pend + 1, ad)), st, G('CRecv')
     if k == 'CRecv':
         if conn is None:
             return sh, st, ('raise', 'AttrErr')
-        closed, got, pend = conn
+        closed, got, pend, ad = conn
         if closed:
             return sh, st, ('raise', 'OSErr')
         if pend > 0:
-            return _set(sh, conn=(closed, got, pend - 1)), st, G('CIsOk')
+            return _set(sh, conn=(closed, got, pend - 1, ad)), st, G('CIsOk')
         return sh, st, ('raise', 'EOFErr' if got else 'HangErr')
     if k == 'CIsOk':
         return sh, st, G('CRet')
@@ -214,14 +215,14 @@ def cstep(cfg, o, i, sh, st, p):
             return sh, st, ('raise', 'AttrErr')
         if not cfg.fix_f2:
             return sh, st, ('raise', 'TypeErr')
-        closed, got, pend = conn
+        closed, got, pend, ad = conn
         if closed:
             return sh, st, ('raise', 'OSErr')
-        return _set(sh, conn=(closed, True, pend)), st, G('KClose')
+        return _set(sh, conn=(closed, True, pend, ad)), st, G('KClose')
     if k == 'KClose':
         if conn is None:
             return sh, st, ('raise', 'AttrErr')
-        return _set(sh, conn=(True, conn[1], conn[2])), st, G('KDel')
+        return _set(sh, conn=(True, conn[1], conn[2], conn[3])), st, G('KDel')
     if k == 'KDel':
         if conn is None:
             return sh, st, ('raise', 'AttrErr')
@@ -237,12 +238,12 @@ def sstep(o, h, sh, status):
     if k == 'S68':
         return sh, ('S69',)
     if k == 'S69':
-        return sh, ('SPopen',)
+        return _set(sh, naddr=sh[NADDR] + 1), ('SPopen', sh[NADDR])
     if k == 'SPopen':
-        sh2, out = run_popen(o, sh, ('SConnect',), lambda e: ('S71', e))
+        sh2, out = run_popen(o, status[1], sh, ('SConnect', status[1]), lambda e: ('S71', e))
         return sh2, out
     if k == 'SConnect':
-        sh2, out = run_connect(o, sh, ('S71', None), ('SConnect',), lambda e: ('S71', e))
+        sh2, out = run_connect(o, status[1], sh, ('S71', None), ('SConnect', status[1]), lambda e: ('S71', e))
         return sh2, out
     if k == 'S71':
         return _set(sh, handle=None), ('SDone', status[1])
@@ -325,8 +326,14 @@ def observe(cfg, o, s):
     conn = sh[CONN]
     connv = [0, 0, 0, 0] if conn is None else [1, int(conn[0]), int(conn[1]), conn[2]]
     en = set(enabled(cfg, o, s))
+    seen = []                       # addresses in the order they were first given to a launched server
+    for a in reversed(sh[SRV]):
+        if a not in seen:
+            seen.append(a)
     res = [sh[LAUNCHES], sh[POPENS], sh[ATTEMPTS]] + connv + [0 if sh[HANDLE] is None else sh[HANDLE] + 1,
                                                              0 if sh[LOCK] is None else sh[LOCK] + 1, len(st)]
+    res += [len(seen), seen.index(sh[SRV][0]) + 1 if sh[SRV] else 0,
+            0 if conn is None else (seen.index(conn[3]) + 1 if conn[3] in seen else 0)]
     for i, (script, pc, exns, ans) in enumerate(clients):
         loc = pc_loc(cfg, pc) if script else (0, 0, 6)
         res += [len(script), loc[0], loc[1], loc[2], ans, int(('C', i) in en), len(exns)] + [EXN_CODE[e] for e in exns]
@@ -514,6 +521,8 @@ class RealRun(object):
         self.local = threading.local()
         self.abort = False
         self.launches = self.popens = self.attempts = 0
+        self.addr_index = {}          # listener address -> number, in order of first use by a launched server
+        self.srv_addrs = []           # address given to each launched server
         self.clock = 0.0
         self.clients = [_T('C', i) for i in range(len(scripts))]
         self.starters = []
@@ -662,6 +671,9 @@ class RealRun(object):
                 if not run.o.p(k):
                     raise FileNotFoundError(2, 'No such file or directory (planned by the oracle)')
                 run.launches += 1
+                addr = args[2] if isinstance(args, (list, tuple)) and len(args) > 2 else repr(args)
+                run.addr_index.setdefault(addr, len(run.addr_index))
+                run.srv_addrs.append(addr)
 
             def poll(self):
                 return None
@@ -675,7 +687,8 @@ class RealRun(object):
             terminate = kill
 
         class FakeConn(object):
-            def __init__(self):
+            def __init__(self, address=None):
+                self.address = address
                 self.closed = False
                 self.gotclose = False
                 self.queue = []
@@ -712,7 +725,7 @@ class RealRun(object):
             run.attempts += 1
             r = run.o.c(k)
             if r == COK:
-                return FakeConn()
+                return FakeConn(address)
             if r == CTIMEOUT:
                 run.clock += 10.0
             raise ConnectionRefusedError(111, 'Connection refused (planned by the oracle)')
@@ -883,6 +896,10 @@ class RealRun(object):
         lo = self.lock_owner
         res = [self.launches, self.popens, self.attempts] + connv + [hv, 0 if lo is None else lo.idx + 1,
                                                                   len(self.starters)]
+        ai = self.addr_index
+        c = d.get('conn')
+        res += [len(ai), ai[self.srv_addrs[-1]] + 1 if self.srv_addrs else 0,
+                (ai.get(c.address, -1) + 1) if isinstance(c, self.FakeConn) else 0]
         for t in self.clients:
             loc = self._loc(t)
             res += [t.remaining, loc[0], loc[1], loc[2], t.answers, int(self.is_enabled(t)), len(t.exns)]
@@ -1055,8 +1072,9 @@ def bfs_paths(cfg, o, scripts, max_states=3000000):
 def decode(obs, nclients):
     """structured view of an observation vector"""
     d = {'launches': obs[0], 'popens': obs[1], 'attempts': obs[2], 'conn': obs[3:7], 'handle': obs[7],
-         'lock': obs[8], 'nstarters': obs[9], 'clients': [], 'starters': []}
-    k = 10
+         'lock': obs[8], 'nstarters': obs[9], 'addresses': obs[10], 'server_addr': obs[11], 'conn_addr': obs[12],
+         'clients': [], 'starters': []}
+    k = 13
     for _ in range(nclients):
         ne = obs[k + 6]
         d['clients'].append({'remaining': obs[k], 'loc': tuple(obs[k + 1:k + 4]), 'answers': obs[k + 4],
@@ -1080,6 +1098,11 @@ def property_failures(obs, scripts, oracle):
     closefree = all(CLOSE not in s for s in scripts)
     exns = [e for c in d['clients'] for e in c['exns']]
     sexn = [s['exn'] for s in d['starters'] if s['exn']]
+    if d['addresses'] != d['launches']:
+        bad.append('a launch reused the listener address of an earlier launch of this client (%d launches, %d addresses)'
+                   % (d['launches'], d['addresses']))
+    if d['conn'][0] and d['conn_addr'] != d['server_addr']:
+        bad.append('the connection does not go to the address of the most recently launched server')
     if EXN_CODE['TypeErr'] in exns:
         bad.append('an operation raised TypeError (close() must send the close request)')
     if 99 in exns or 99 in sexn:
@@ -1404,9 +1427,86 @@ def real_subprocess_checks():
                 p.wait()
         return r
 
+    # (d) close() and immediate reuse while the PREVIOUS server is slow to go away: the new session must be
+    #     served by a newly launched server on its own listener address, whatever the old process is doing
+    def part_d():
+        import signal
+        r = {'ok': False}
+        n0 = len(launched)
+
+        def timed(fn, limit=25.0):
+            box = {}
+            mine = launched._l()
+
+            def tgt():
+                per_thread[_th.get_ident()] = mine      # launches of the helper thread count for this part
+                try:
+                    box['v'] = fn()
+                except BaseException as e:      # noqa
+                    box['e'] = e
+            th = _th.Thread(target=tgt, daemon=True)
+            th.start()
+            th.join(limit)
+            if th.is_alive():
+                return None, 'no answer within %ss' % limit
+            if 'e' in box:
+                e = box['e']
+                if type(e) is Exception and str(e).startswith('Supp server launching timeout exceed'):
+                    raise e                     # environmental: the whole part is repeated
+                return None, '%s: %s' % (type(e).__name__, str(e)[:80])
+            return box['v'], None
+
+        try:
+            # d1: the old server lingers while exiting (atexit handler, e.g. flushing logs)
+            env = R.Environment()
+            pid1 = env.eval('import os\nreturn os.getpid()')
+            env.eval('import atexit, time\natexit.register(time.sleep, 1.5)\nreturn 1')
+            p1 = launched[-1]
+            env.close()
+            r['old_still_running_at_reuse'] = p1.poll() is None
+            pid2, err = timed(lambda: env.eval('import os\nreturn os.getpid()'))
+            r['lingering'] = {'first_pid': pid1, 'second_pid': pid2, 'error': err,
+                              'launched': len(launched) - n0}
+            ok1 = err is None and pid2 is not None and pid2 != pid1 and len(launched) - n0 == 2
+            if err is None:
+                env.close()
+            r['lingering']['old_exit_s'] = wait_exit(p1)
+            # d2: the old server is stopped (cannot even read the close request) when the client moves on
+            n1 = len(launched)
+            env = R.Environment()
+            pid3 = env.eval('import os\nreturn os.getpid()')
+            p3 = launched[-1]
+            os.kill(p3.pid, signal.SIGSTOP)
+            try:
+                env.close()
+                pid4, err2 = timed(lambda: env.eval('import os\nreturn os.getpid()'))
+            finally:
+                os.kill(p3.pid, signal.SIGCONT)
+            r['stopped'] = {'first_pid': pid3, 'second_pid': pid4, 'error': err2, 'launched': len(launched) - n1,
+                            'old_exit_after_cont_s': wait_exit(p3)}
+            ok2 = (err2 is None and pid4 is not None and pid4 != pid3 and len(launched) - n1 == 2
+                   and r['stopped']['old_exit_after_cont_s'] is not None)
+            if err2 is None:
+                env.close()
+            r['ok'] = bool(ok1 and ok2)
+        finally:
+            for p in launched[n0:]:
+                if p.poll() is None:
+                    try:
+                        os.kill(p.pid, signal.SIGCONT)
+                    except OSError:
+                        pass
+                    try:
+                        p.wait(5)
+                    except Exception:
+                        p.kill()
+                p.wait()
+        return r
+
     def ab():
         attempt('a', part_a)
         attempt('b', part_b)
+        attempt('d', part_d)
 
     ths = [_th.Thread(target=ab), _th.Thread(target=attempt, args=('c', part_c))]
     for t in ths:
